@@ -250,6 +250,40 @@ func c04Exhaustive(c *Ctx, kind uint64, o wOpts, roots []cid.Cid, opset []Val, n
 	}
 }
 
+// c04Example: the concrete instance the non-vacuity Examples of the C04 theorems are about
+func c04Example(c *Ctx) {
+	digest := make([]byte, 32)
+	for i := range digest {
+		digest[i] = byte(i + 1)
+	}
+	enc := func(code uint64, d []byte) mh.Multihash {
+		h, err := mh.Encode(d, code)
+		if err != nil {
+			panic(err)
+		}
+		return h
+	}
+	data := []byte{222, 173, 190, 239}
+	long := append(append(append([]byte{}, digest...), digest...), digest...)
+	cA := cid.NewCidV1(0x55, enc(0x12, digest))
+	cA2 := cid.NewCidV1(0x70, enc(0x12, digest))
+	cI := cid.NewCidV1(0x55, enc(0x00, digest))
+	cX := cid.NewCidV1(0x55, enc(0x16, digest))
+	cL := cid.NewCidV1(0x55, enc(0x00, long))
+	k := func(x cid.Cid) Val { return VB(x.Bytes()) }
+	o := defaultWOpts
+	o.dpad, o.ipad, o.maxCid, o.storeID = 7, 1, 40, true
+	ops := VL{
+		VL{VT("put"), k(cA), VB(data)}, VL{VT("put"), k(cI), VB(digest)}, VL{VT("has"), k(cI)}, VL{VT("get"), k(cI)},
+		VL{VT("put"), k(cX), VB(data)}, VL{VT("get"), k(cX)}, VL{VT("put"), k(cA2), VB(data)},
+		VL{VT("putmany"), VL{k(cA), VB(data)}, VL{k(cL), VB(long)}},
+		VL{VT("keys")}, VL{VT("getsize"), k(cA)}, VL{VT("roots")}, VL{VT("get"), k(cA2)}, VL{VT("finalizero")},
+		VL{VT("get"), k(cA)}, VL{VT("put"), k(cA), VB(data)}, VL{VT("finalize")}, VL{VT("has"), k(cA)}, VL{VT("get"), k(cI)},
+	}
+	c.Count("history:coq-example")
+	emitC04(c, 0, o, []cid.Cid{cA}, ops)
+}
+
 func init() {
 	registerReplay("storemap", func(c *Ctx, in Val) Val {
 		l := in.(VL)
@@ -308,6 +342,8 @@ func init() {
 				}
 			}
 		}
+		// (1c) the history of the Coq Example C04_example_* (proofs/StoreSpecExamples.v)
+		c04Example(c)
 		// (2) exhaustive small scope.  quick: all histories of length 2 over the full op set and a
 		// 5-block alphabet for 4 rows; thorough: length 3 over the full op set and length 4 over the
 		// reduced op set for the 12 rows, both front-ends
